@@ -441,11 +441,11 @@ def run(ctx):
     run_static(ctx)
     for case in load_corpus(ctx):
         replay(ctx, case)
-    stream_scrape(ctx, ctx.scale(1500, 60000))
-    stream_http(ctx, ctx.scale(400, 15000))
-    stream_http(ctx, ctx.scale(150, 5000), robots=True)
-    stream_ftp(ctx, ctx.scale(400, 15000))
-    stream_e2e(ctx, ctx.scale(40, 1200))
+    stream_scrape(ctx, ctx.scale(4000, 60000))
+    stream_http(ctx, ctx.scale(1200, 15000))
+    stream_http(ctx, ctx.scale(400, 5000), robots=True)
+    stream_ftp(ctx, ctx.scale(1200, 15000))
+    stream_e2e(ctx, ctx.scale(100, 1200))
 
 
 def search(ctx):
